@@ -656,7 +656,7 @@ func C08() *engine.Check {
 	return &engine.Check{
 		Property: "C08",
 		Level:    "model_checking",
-		Subs:     []*engine.Sub{c08HashSub(), c08CanonSub(), c08ConcSub()},
+		Subs:     []*engine.Sub{c08HashSub(), c08CanonSub(), c08ConcSub(), concRaceSub("C08")},
 		Assumptions: []string{
 			"reference CID = 0x01 0x71 0x12 0x20 || crypto/sha256(bytes)",
 			"the CBOR item parser/re-encoder (refmodel/cbor.go) is independent of go-ipld-prime; a re-encoding is data-preserving by construction",
